@@ -104,6 +104,55 @@ class Frame:
         i = hits[0] + self.n_index
         return Series([(r[i] if i < len(r) else None) for r in self.rows])
 
+    def _positions(self, subset):
+        if subset is None:
+            return list(range(self.n_index, self.n_index + len(self.columns)))
+        labels = list(subset) if isinstance(subset, (list, tuple)) else [subset]
+        out = []
+        for lb in labels:
+            hits = [i for i, c in enumerate(self.columns) if c == lb]
+            if len(hits) != 1:
+                raise KeyError(lb)
+            out.append(hits[0] + self.n_index)
+        return out
+
+    def drop_duplicates(self, subset=None, keep="first", inplace=False, ignore_index=False):
+        """pandas: a row is dropped when an EARLIER row has equal values in the subset columns (keep='first'); equality of two parsed numbers
+        is decided by the solver (forks on symbolic values)"""
+        if keep != "first" or inplace:
+            raise Unsupported("drop_duplicates(keep != 'first' / inplace)")
+        pos = self._positions(subset)
+        kept = []
+        for r in self.rows:
+            dup = False
+            for q in kept:
+                same = True
+                for i in pos:
+                    a, b = (r[i] if i < len(r) else None), (q[i] if i < len(q) else None)
+                    if a is None or b is None:
+                        eq = a is None and b is None
+                    else:
+                        eq = bool(a == b)
+                    if not eq:
+                        same = False
+                        break
+                if same:
+                    dup = True
+                    break
+            if not dup:
+                kept.append(r)
+        if self.n_index and ignore_index:
+            raise Unsupported("drop_duplicates(ignore_index=True) on a frame whose index came from the file")
+        return Frame(self.columns, [list(r) for r in kept], self.n_index)
+
+    def reset_index(self, drop=False, **k):
+        if k or not drop or self.n_index:
+            raise Unsupported("reset_index other than (drop=True) on a default index")
+        return Frame(self.columns, [list(r) for r in self.rows], 0)
+
+    def copy(self, *a, **k):
+        return Frame(self.columns, [list(r) for r in self.rows], self.n_index)
+
     def __getattr__(self, nm):
         raise Unsupported(f"DataFrame.{nm} is not modelled")
 
@@ -635,6 +684,22 @@ def selftest_xvg(seed):
                 mt = read_csv_model([CLine(t_) for t_ in txt.splitlines()], bool, **kw)
                 assert list(pt.columns) == mt.columns and pt.shape == mt.shape == (D, 1), ("usecols", pt.shape, mt.shape)
                 assert np.array_equal(pt.to_numpy(dtype=float), np.asarray(mt.to_numpy(), dtype=float)), "usecols values"
+                n += 1
+        # drop_duplicates(subset, ignore_index) / reset_index(drop=True) on tables with repeated values
+        for trial in range(12):
+            D = int(rng.integers(1, 6))
+            data = [[float(rng.integers(0, 3)), float(rng.integers(0, 2)), round(float(rng.normal()), 6)] for _ in range(D)]
+            txt = xvg_text(13, [None, (0, "A"), (1, "B")], data)
+            with open(fn, "w") as f:
+                f.write(txt)
+            kw = dict(sep=r"\s+", comment="@", skiprows=13, header=None, names=["t", "A", "B"])
+            pt = pd.read_csv(fn, **kw)
+            mt = read_csv_model([CLine(t_) for t_ in txt.splitlines()], bool, **kw)
+            for subset in (None, "t", ["t", "A"], ["A"]):
+                pdd = pt.drop_duplicates(subset=subset, ignore_index=True)
+                mdd = mt.drop_duplicates(subset=subset, ignore_index=True)
+                assert pdd.shape == mdd.shape and np.array_equal(pdd.to_numpy(dtype=float), np.asarray(mdd.to_numpy(), dtype=float).reshape(pdd.shape)), ("drop_duplicates", subset, data)
+                assert np.array_equal(pt.drop_duplicates(subset=subset).reset_index(drop=True).to_numpy(dtype=float), pdd.to_numpy(dtype=float))
                 n += 1
     finally:
         for f_ in os.listdir(d):
